@@ -133,6 +133,40 @@ def run(ctx):
         cases.append((kind, term, exp, (n, na)))
         ctx.case(key=(kind, n, na), sample={"kind": kind, "N": n, "N_active": na, "masses": ms[:4]} if k < 3 else None)
 
+    # ---- MERCURIUS / TRACE in-place shifts on real Simulation objects (functions are not DLLEXPORT but visible)
+    import rebound
+    for k in range(ctx.scale(120, 1500)):
+        integ = "mercurius" if k % 2 == 0 else "trace"
+        n, na, ms, vals = gen_system(rng)
+        sim = rebound.Simulation()
+        for i in range(n):
+            sim.add(m=ms[i], x=vals["x"][i], y=vals["y"][i], z=vals["z"][i], vx=vals["vx"][i], vy=vals["vy"][i], vz=vals["vz"][i])
+        tptype = rng.choice([0, 0, 1])
+        sim.testparticle_type = tptype
+        if na < n or rng.random() < 0.5:
+            sim.N_active = na
+        na_eff = n if (sim.N_active == -1 or tptype == 1) else sim.N_active
+        ri = getattr(sim, "ri_" + integ)
+        msl = vlib.flist(ms)
+        fwd = k % 4 < 2
+        if fwd:
+            getattr(clib, "reb_integrator_%s_inertial_to_dh" % integ)(ctypes.byref(sim))
+            out = [[getattr(sim.particles[i], c) for i in range(n)] for c in P3 + V3]
+            exp = sum(out, []) + [ri._com_pos.x, ri._com_pos.y, ri._com_pos.z, ri._com_vel.x, ri._com_vel.y, ri._com_vel.z]
+            term = "(mercF %s %s %s %d)" % (msl, ll([vals[c] for c in P3]), ll([vals[c] for c in V3]), na_eff)
+        else:
+            cp = [rng.gauss(0, 1) for _ in range(3)]; cv = [rng.gauss(0, 1) for _ in range(3)]
+            ri._com_pos.x, ri._com_pos.y, ri._com_pos.z = cp
+            ri._com_vel.x, ri._com_vel.y, ri._com_vel.z = cv
+            getattr(clib, "reb_integrator_%s_dh_to_inertial" % integ)(ctypes.byref(sim))
+            exp = sum([[getattr(sim.particles[i], c) for i in range(n)] for c in P3 + V3], [])
+            term = "(mercI %s %s %s %s %s %d)" % (msl, ll([vals[c] for c in P3]), ll([vals[c] for c in V3]),
+                                                 vlib.flist(cp), vlib.flist(cv), na_eff)
+        kind = integ + ("F" if fwd else "I")
+        cases.append((kind, term, exp, (n, na_eff)))
+        dist[(kind, min(n, 9), na_eff == n)] = dist.get((kind, min(n, 9), na_eff == n), 0) + 1
+        ctx.case(key=(kind, n, na_eff))
+
     # ---- correspondence: evaluate the model inside Coq on the same inputs
     jobs = []
     chunk = 100
